@@ -136,6 +136,23 @@ Theorem C07_validate_circuit_op : forall gs tags inner,
 Proof. exact validate_circuit_op. Qed.
 Print Assumptions C07_validate_circuit_op.
 
+(* one iteration of the mapped (resolved, possibly inverted) body decides every positive number of repetitions; zero repetitions
+   stand for no operation; an untagged nested CircuitOperation may be spliced in *)
+Theorem C07_validate_circuit_op_repeat : forall gs tags n b,
+  validate_op gs (OCircuit tags (repeat_ops (S n) b)) = validate_op gs (OCircuit tags b).
+Proof. exact validate_circuit_op_repeat. Qed.
+Print Assumptions C07_validate_circuit_op_repeat.
+
+Theorem C07_validate_circuit_op_zero : forall gs tags b,
+  validate_op gs (OCircuit tags (repeat_ops 0 b)) = disjoint (gs_banned gs) tags && gs_unroll gs.
+Proof. exact validate_circuit_op_zero. Qed.
+Print Assumptions C07_validate_circuit_op_zero.
+
+Theorem C07_validate_circuit_op_splice : forall gs tags pre inner post,
+  validate_op gs (OCircuit tags (pre ++ OCircuit [] inner :: post)) = validate_op gs (OCircuit tags (pre ++ inner ++ post)).
+Proof. exact validate_circuit_op_splice. Qed.
+Print Assumptions C07_validate_circuit_op_splice.
+
 (* ---- devices ---- *)
 Theorem C07_device_accepts_iff : forall d o,
   device_accepts d o = true <->
@@ -203,6 +220,18 @@ Proof.
     injection Hk as <- <- _. simpl in Hv. discriminate.
   - right. exists []. reflexivity.
 Qed.
+(* the raw body of a CircuitOperation is not what it stands for.  Gateset: the instance family of one gate (value class 7, say CZ).
+   The body gate CZ**s is parameterized (class 9, equal to no instance up to phase); the resolver sets s = 1, so the mapped circuit
+   holds CZ itself (twice for two repetitions): validation of the mapped circuit accepts, validation of the raw body refuses.
+   Second part: a body gate of the family (say SQRT_ISWAP) under negative repetitions stands for its inverse (class 8), which is refused. *)
+Example C07_resolved_vs_raw_body :
+  let gs := mkGS [mkF (FBase (BInst 7 0 true)) [] []] true [] in
+  let raw := GD [3; 0] 9 [] true false 2 false false None in
+  let resolved := GD [3; 0] 7 [0] false true 2 true false None in
+  let inverted := GD [3; 0] 8 [] false false 2 true false None in
+  validate_op gs (OCircuit [] (repeat_ops 2 [OGate resolved []])) = true /\ validate_op gs (OCircuit [] [OGate raw []]) = false /\
+  validate_op gs (OCircuit [] [OGate resolved []]) = true /\ validate_op gs (OCircuit [] [OGate inverted []]) = false.
+Proof. repeat split. Qed.
 (* a grid-like device: qubits 0..2, pairs (0,1) (1,2); a two-qubit operation on the pair (0,2) is rejected, on (1,0) accepted *)
 Example C07_device_example :
   let gs := mkGS [mkF (FBase (BType 1)) [] []] true [] in
